@@ -177,6 +177,12 @@ func c18ReadScan(r *core.R, x *c18Exec, cn string, recvFields map[string]bool, o
 					}
 				}
 			case *ast.IndexExpr:
+				// tags may be walked by a variable index (the evaluator runs such code on witness tag lists with
+				// unrelated tags before and behind); a CONSTANT position is a dependence on tag order
+				_, constIdx := constInt(info, p.Index)
+				if cl == "tags" && p.X == child && !constIdx {
+					break
+				}
 				if !(cl == "node list" && p.X == child) {
 					note(p, "the "+cl+" is indexed; "+map[bool]string{true: "the answer may depend on tag order or on unrelated tags", false: "only the node list may be indexed"}[cl == "tags"])
 				}
@@ -185,7 +191,8 @@ func c18ReadScan(r *core.R, x *c18Exec, cn string, recvFields map[string]bool, o
 				tv, isConv := info.Types[p.Fun]
 				switch {
 				case p.Fun == child:
-				case builtinName(info, p) == "len" && cl == "node list":
+				case builtinName(info, p) == "len" && (cl == "node list" || cl == "tags"):
+					// len(tags): the evaluator decides emptiness only; any other use of the count is undecided there
 				case isConv && tv.IsType() && classify(tv.Type) == cl:
 				case followed(fn):
 				default:
@@ -213,8 +220,12 @@ func c18ReadScan(r *core.R, x *c18Exec, cn string, recvFields map[string]bool, o
 					note(p, "the "+cl+" is compared as a whole")
 				}
 			case *ast.RangeStmt:
-				if p.X == child {
+				if p.X == child && cl != "tags" {
 					note(p.X, "the "+cl+" is iterated; the answer may depend on order or on unrelated elements")
+				}
+			case *ast.SliceExpr:
+				if !(cl == "tags" && p.X == child && p.Max == nil) {
+					note(p, "the "+cl+" is re-sliced")
 				}
 			default:
 				note(up, "the "+cl+" is used other than through "+okText)
